@@ -604,6 +604,13 @@ def _scenarios():
                                      "ab1!", [], [OR0, AND1, ("PrecededBy", "parseImpl", 1, "CParse")], 1, 0)
     sc["ignore-in-or"] = (lambda r, c: ((W(A) + W(A)) ^ W(AN)).ignore(X(r, c, pp.Literal("#") + W(N))),
                           "ab #12 cd", [(3, ["#", "12"])], [OR0, AND1, IGN], 1, 1)
+    # Each nested inside the trial constructs: both passes of Each.parseImpl must forward do_actions (oracle only, no site chain)
+    sc["each-in-or-loses"] = (lambda r, c: (X(r, c) & W(N)) ^ (W(A) + W(N) + "!"), "ab 12 !", [], None, 0, 0)
+    sc["each-in-or-wins"] = (lambda r, c: (X(r, c) & W(N)) ^ W(A), "ab 12", [(0, ["ab"])], None, 0, 1)
+    sc["each-in-skipto"] = (lambda r, c: pp.SkipTo(X(r, c) & W(N)), "! ab 12", [], None, 0, 0)
+    sc["each-in-skipto-include"] = (lambda r, c: pp.SkipTo(X(r, c) & W(N), include=True), "! 12 ab", [(5, ["ab"])], None, 0, 1)
+    sc["each-in-stop-on"] = (lambda r, c: pp.OneOrMore(W(AN), stop_on=(X(r, c, pp.Keyword("end")) & pp.Literal("!"))), "a b end !", [], None, 0, 0)
+    sc["each-opt-in-or-loses"] = (lambda r, c: (pp.Opt(X(r, c)) & W(N)) ^ (W(A) + W(N) + "!"), "ab 12 !", [], None, 0, 0)
     return sc
 
 
